@@ -358,7 +358,7 @@ impl Sim {
             return vec![];
         }
         let was = self.ctx_flag.is();
-        self.ctx_flag.clear();
+        self.ctx_flag = Flag::new(false); // a waker of its own for every poll (see poll_op)
         self.emit(json!({"e": "ctxb", "woken": was as u8}));
         let waker = Waker::from(self.ctx_flag.clone());
         let mut cx = TaskCx::from_waker(&waker);
@@ -556,7 +556,9 @@ impl Sim {
         let t = self.ops.get_mut(&k)?;
         let fut = t.fut.as_mut()?;
         let was = t.flag.is();
-        t.flag.clear();
+        // every poll hands the future a waker of its own (a future may be polled from another task, or under a combinator that
+        // wraps the waker, at any time): only the waker of the most recent poll counts, a wake-up sent to an older one is lost
+        t.flag = Flag::new(false);
         let first = !t.polled;
         t.polled = true;
         let waker = Waker::from(t.flag.clone());
@@ -605,7 +607,7 @@ impl Sim {
         let t = self.streams.get_mut(&k)?;
         let st = t.st.as_mut()?;
         let was = t.flag.is();
-        t.flag.clear();
+        t.flag = Flag::new(false);
         let waker = Waker::from(t.flag.clone());
         let mut cx = TaskCx::from_waker(&waker);
         let r = catch_unwind(AssertUnwindSafe(|| st.as_mut().poll_next(&mut cx)));
